@@ -76,6 +76,18 @@ func (p *clientStreamProcessorFMP4) run(ctx context.Context) error {
 		return err
 	}
 
+	// skip tracks with unsupported codecs
+	var supportedTracks []*fmp4.InitTrack
+	for _, track := range p.init.Tracks {
+		if codecs.FromFMP4(track.Codec) != nil {
+			supportedTracks = append(supportedTracks, track)
+		}
+	}
+	if len(supportedTracks) == 0 {
+		return fmt.Errorf("no supported tracks found")
+	}
+	p.init.Tracks = supportedTracks
+
 	if !p.isLeading && len(p.init.Tracks) != 1 {
 		return fmt.Errorf("rendition playlists with multiple tracks are not supported")
 	}
